@@ -34,7 +34,7 @@ impl Api for SD {
             let cm = if *d { it.next_back() } else { it.next() };
             let off = Val::N;
             let rp = it.as_path();
-            let st = c("t", vec![Val::Bool(rp.has_root()), Val::Bool(rp.is_absolute()), b(pbytes(rp)), Val::N]);
+            let st = c("t", vec![Val::Bool(rp.has_root()), Val::Bool(rp.is_absolute()), b(pbytes(rp)), Val::N, Val::N]);
             steps.push(c("st", vec![opt(cm, |x| comp(&x)), b(pbytes(it.as_path())), off, st]));
         }
         Val::L(steps)
@@ -61,6 +61,9 @@ impl Api for SD {
     }
     fn parent(p: &[u8]) -> Val {
         opt(sp(p).parent(), |x| b(pbytes(x)))
+    }
+    fn parent_variants(_p: &[u8]) -> Val {
+        Val::L(vec![])
     }
     fn ancestors(p: &[u8]) -> Val {
         list(sp(p).ancestors(), |a| b(pbytes(a)))
